@@ -652,6 +652,73 @@ example : (∃ r', glweNormalize 2 exRes exA = .ok r') ∧ (∃ r', glweNormaliz
           exact this.trans (by norm_num))
     exact ⟨r', h⟩
 
+/-- tolerance of a re-normalisation from `pa` to `pr` bits of precision -/
+def normTol (pr pa : Nat) : Int := if pa ≤ pr then 0 else 2 ^ pa
+
+/-- **`glwe_normalize`, any pair of radices `1..62`, all limb counts** (from `C08.normalize_value_offset0`):
+whenever the kernel returns on every column (its cross-radix loop has a fuel bound in the model; it was
+never exhausted in the corresponded cases) the operation returns `ok` and the phase is re-expressed in
+the result's radix, exactly when `ab·as ≤ rb·rs`, within `1 + Σ‖sᵢ‖₁` units of the result's last limb otherwise -/
+theorem normalize_phase {N : Nat} {res a : GLWE} (hr : GWF N res) (ha : GWF N a) (hrank : res.rank = a.rank)
+    (hrb1 : 1 ≤ res.base2k) (hrb : res.base2k ≤ 62) (hab1 : 1 ≤ a.base2k) (hab : a.base2k ≤ 62)
+    {H : Int} (hH0 : 0 ≤ H) (hH : H + 8 ≤ 2 ^ 62) (hb : GBound H a)
+    (hret : ∀ i, i ≤ res.rank → ∃ Ci, normalizeCol? res.base2k res.size 0 (col a i) a.base2k N = some Ci) :
+    ∃ r', glweNormalize N res a = .ok r' ∧ Same res r' ∧ GWF N r' ∧ r'.size = res.size ∧
+      ∀ (s : List Poly) t, t < N → ∃ q e : Int,
+        2 ^ (a.base2k * a.size) * valCoeff res.base2k (phase s r') t
+          = 2 ^ (res.base2k * res.size) * valCoeff a.base2k (phase s a) t + e
+            + q * 2 ^ (res.base2k * res.size + a.base2k * a.size) ∧
+        |e| ≤ (1 + snorm (min res.rank s.length) s) * normTol (res.base2k * res.size) (a.base2k * a.size) := by
+  let C : Nat → Col := fun i => (normalizeCol? res.base2k res.size 0 (col a i) a.base2k N).getD []
+  have hC : ∀ i, i ≤ res.rank → normalizeCol? res.base2k res.size 0 (col a i) a.base2k N = some (C i) := by
+    intro i hi
+    obtain ⟨Ci, h⟩ := hret i hi
+    simp only [C, h, Option.getD_some]
+  obtain ⟨r', e, hs, w, sz, hcol⟩ := normalize_loop hr ha hrank C (fun i hi => by
+    have h := mapCoefs?_inv _ _ _ _ (hC i hi)
+    exact ⟨hC i hi, h.1, h.2.1⟩)
+  refine ⟨r', e, hs, w, sz, fun s t ht => ?_⟩
+  have hU : 0 ≤ normTol (res.base2k * res.size) (a.base2k * a.size) := by unfold normTol; split <;> positivity
+  have := torus_phase3 w hr ha hs.rank.symm (by rw [hs.rank, hrank]) res.base2k res.base2k a.base2k
+    (2 ^ (a.base2k * a.size)) 0 (2 ^ (res.base2k * res.size)) (2 ^ (res.base2k * res.size + a.base2k * a.size))
+    (normTol (res.base2k * res.size) (a.base2k * a.size))
+    (fun i hi t ht => by
+      rw [hs.rank] at hi
+      have hal : (coefAt (col a i) t).length = a.size := by rw [coefAt_length, (ha.col_wf i (by omega)).1]
+      have hab' := coefAt_bound hH0 (hb _ (col_mem i (by rw [ha.len]; omega))) t
+      obtain ⟨o, ho, hco⟩ := (mapCoefs?_inv _ _ _ _ (hC i hi)).2.2 t ht
+      have ctx : NormL.CrossCtx 64 a.base2k res.base2k res.size 0 H (coefAt (col a i) t) :=
+        ⟨Or.inl rfl, hrb1, hrb, by omega, hab, hH0, by simpa using hH, hab'⟩
+      have hv := C08.normalize_value_offset0 ctx ho
+      rw [hal] at hv
+      rw [hcol i hi, valCoeff_eq, valCoeff_eq, valCoeff_eq, hco hv.1]
+      unfold normTol
+      split
+      next hc =>
+        obtain ⟨q, hq⟩ := hv.2.2.2 hc
+        exact ⟨q, 0, by linear_combination hq, by simp⟩
+      next hc =>
+        obtain ⟨q, e, hq, he⟩ := hv.2.2.1
+        exact ⟨q, e, by linear_combination hq, he⟩) s t ht
+  rw [hs.rank] at this
+  obtain ⟨q, e, he, hb'⟩ := this
+  exact ⟨q, e, by linear_combination he, hb'⟩
+
+/-- radix `2^2` (two limbs) into radix `2^4` (two limbs): cross radix, exact -/
+example : ∃ r', glweNormalize 2 exRes exA2 = .ok r' ∧ ∀ (s : List Poly) t, t < 2 → ∃ q e : Int,
+    2 ^ (2 * 2) * valCoeff 4 (phase s r') t = 2 ^ (4 * 2) * valCoeff 2 (phase s exA2) t + e + q * 2 ^ (4 * 2 + 2 * 2) ∧
+    |e| ≤ (1 + snorm (min 1 s.length) s) * normTol (4 * 2) (2 * 2) := by
+  obtain ⟨r', h, _, _, _, hp⟩ := normalize_phase (N := 2) (res := exRes) (a := exA2) (by decide) (by decide) rfl
+    (by decide) (by decide) (by decide) (by decide) (H := 2 ^ 60) (by norm_num) (by norm_num)
+    (by intro c hc l hl x hx; have : |x| ≤ 8 := by revert x l c; decide
+        exact this.trans (by norm_num))
+    (by intro i hi
+        have : i = 0 ∨ i = 1 := by have : i ≤ 1 := hi; omega
+        rcases this with rfl | rfl
+        · exact ⟨[[4, -7], [0, 0]], by decide +kernel⟩
+        · exact ⟨[[-3, 1], [0, 0]], by decide +kernel⟩)
+  exact ⟨r', h, hp⟩
+
 /-! ## GGSW operations (`operations/ggsw.rs`)
 
 A GGSW is `dnum` rows of `rank+1` GLWE cells; `GGWF N g`: `dnum·(rank+1)` well-formed cells of the GGSW's
